@@ -32,7 +32,9 @@
 EXTENDS Naturals, Integers, Sequences, FiniteSets, TLC, Json, IOUtils
 
 CONSTANTS Source,      \* "enum" | "file"
-          Kinds, Fmts, Ks, Indents, BlankCounts    \* enumeration bounds (cfg)
+          Kinds, Fmts, Ks, Indents, BlankCounts,   \* enumeration bounds (cfg)
+          RstLineNotConverted  \* TRUE while the tree has the deviation (known finding rst-markup-line-off-by-one); FALSE once
+                               \* proposed_fixes/C16-rst-markup-line-off-by-one.diff is applied, so that model drift stays 0
 
 AllKinds == {"module", "class", "function", "method", "attribute"}
 AllFmts  == {"epytext", "restructuredtext", "google", "numpy"}
@@ -152,9 +154,6 @@ ParserAt(l)    == Conv(l).at
 PE_linenum(stored) == stored + 1
 \* reportErrors: lineno_offset = (err.linenum() or 1) - 1
 ReportErrorsOffset(stored) == (IF PE_linenum(stored) = 0 THEN 1 ELSE PE_linenum(stored)) - 1
-\* TRUE while the tree has the deviation (known finding rst-markup-line-off-by-one); flip to FALSE once
-\* proposed_fixes/C16-rst-markup-line-off-by-one.diff is applied, so that model drift stays 0
-RstLineNotConverted == TRUE
 \* the number each path hands to Documentable.report as lineno_offset
 Offset(l) ==
   CASE l.prob = "markup" /\ l.fmt = "epytext" -> ReportErrorsOffset(ParserFirst(l))          \* epytext.py: StructuringError/ColorizingError(.., token.startline)
